@@ -597,6 +597,17 @@ class SymNP:
     def arccos(self, x):
         return _arccos(x)
 
+    def arctan2(self, y, x):
+        """direction of the vector (x, y) as an Angle: cos = x/r, sin = y/r"""
+        if has_sym(y, x):
+            if isinstance(y, _np.ndarray) and y.shape == ():
+                y = y.item()
+            if isinstance(x, _np.ndarray) and x.shape == ():
+                x = x.item()
+            r = Sym.of(Sym.of(x) * x + Sym.of(y) * y).sqrt()
+            return Angle(Sym.of(x) / r, Sym.of(y) / r, "rad")
+        return _np.arctan2(_defloat(y), _defloat(x))
+
     def cross(self, a, b, **k):
         if not has_sym(a, b):
             r = _np.cross(_defloat(a), _defloat(b), **k)
